@@ -86,3 +86,16 @@ Example C36_example :
   = [(0, []); (0, []); (0, []); (0, []); (0, []); (0, []); (0, []); (1, [(1, true)]); (1, []); (1, []);
      (4, [(2, true); (4, true)])].
 Proof. vm_compute. repeat split. Qed.
+
+(* Every block finalizeRound hands to the finalized-block worker - accepted or not - descends
+   from the LFB, unless the computed block lies more than [ahead] rounds above the LFB (then
+   the walk is cut short before it can be connected and the worker's own test decides).  No
+   premise on the known notarized blocks: a fork that does not contain the LFB is refused by
+   the walk's connectivity test, which precedes the cut-off. *)
+Theorem C36_handed_blocks_descend_from_lfb :
+  forall t ahead st r fb v, fz_uniform t ->
+  In (fb, v) (snd (fz_finalize t ahead st r)) ->
+  fz_ancestor t (fz_lfb st) fb \/
+  exists l, fz_compute t (fz_known st) (fz_rnd t (fz_lfb st)) r = FzSome l /\ fz_rnd t (fz_lfb st) + ahead < fz_rnd t l.
+Proof. exact fz_handed_blocks_descend. Qed.
+Print Assumptions C36_handed_blocks_descend_from_lfb.
